@@ -6,7 +6,7 @@ import obl_kani
 def run(c):
     import clauses
     c.only_clauses = clauses.OWN["C07"]
-    names = ["k_rank_cmp_antisym", "k_rank_sort_stable_4", "k_rank_sort_stability"]
+    names = ["k_rank_cmp_antisym", "k_rank_cmp_ignores_text", "k_rank_sort_stable_4", "k_rank_sort_stability"]
     if c.tier == "thorough":
         names += ["k_rank_sort_stable_6"]
     obl_kani.run(c, names, timeout=3000)
